@@ -92,9 +92,12 @@ def run_A(item, rec):
 
                         state = {"first": True}
 
-                        def harness(ctx, ssa=ssa, ones=ones, order=order, late=late, case=case):
+                        cur = {}
+
+                        def harness(ctx, ssa=ssa, ones=ones, order=order, late=late, case=case, cur=cur):
                             size = {c: (1 if c in ones else symx.sym_int("d_" + c, 2, 64)) for c in labels}
                             chi = symx.sym_int("chi", 1)
+                            cur["size"], cur["chi"] = size, chi
                             chi_facts(ctx, chi, size, labels)
                             tree = ContractionTree.from_path(inputs, output, size, ssa_path=ssa)
                             tr = tree.compressed_contract_stats(chi=chi, order=order, compress_late=late)
@@ -146,7 +149,9 @@ def run_A(item, rec):
                                                       signature=["C20A-maxsize-other", list(inputs), output]), reach_probe=False)
 
                         state = {"first": True}
-                        rec.add_explore(symx.explore(harness, max_paths=400, deadline_s=30))
+                        rec.add_explore(symx.explore(rec.guard_harness(harness, "compressed stats == definitional exact stats (no truncation)", lambda m, case=case, cur=cur, ssa=ssa, order=order, late=late: dict(
+                            case=case, size={c: symx.eval_model(m, cur["size"][c]) for c in labels}, chi=symx.eval_model(m, cur["chi"]), which="definition",
+                            signature=["C20A", list(inputs), output, str(ssa), order, late])), max_paths=400, deadline_s=30))
         rec.sample(dict(part="A", inputs=list(inputs), output=output, sizes="symbolic >= 2", chi="symbolic, >= every product of label sizes"))
     rec.validated += 1
 
@@ -162,9 +167,12 @@ def run_B(item, rec):
             for late in (False, True):
                 case = dict(kind="B", inputs=list(inputs), output=output, ssa=[list(p) for p in ssa], late=late)
 
-                def harness(ctx, ssa=ssa, late=late, case=case):
+                cur = {}
+
+                def harness(ctx, ssa=ssa, late=late, case=case, cur=cur):
                     size = {c: symx.sym_int("d_" + c, 1, 3) for c in labels}
                     chi = symx.sym_int("chi", 1, 32)
+                    cur["size"], cur["chi"] = size, chi
                     tree = ContractionTree.from_path(inputs, output, size, ssa_path=ssa)
                     capped = tree.compressed_contract_stats(chi=chi, order="dfs", compress_late=late)
                     free = tree.compressed_contract_stats(chi=float("inf"), order="dfs", compress_late=late)
@@ -175,7 +183,9 @@ def run_B(item, rec):
 
                     rec.refute(ctx, z3.Or(bads), "capped size/peak/write <= uncapped", viol)
 
-                rec.add_explore(symx.explore(harness, max_paths=3000, deadline_s=60, timeout_ms=4000))
+                rec.add_explore(symx.explore(rec.guard_harness(harness, "capped size/peak/write <= uncapped", lambda m, case=case, cur=cur, ssa=ssa, late=late: dict(
+                    case=case, size={c: symx.eval_model(m, cur["size"][c]) for c in labels}, chi=symx.eval_model(m, cur["chi"]), signature=["C20B", list(inputs), output, str(ssa), late])),
+                    max_paths=3000, deadline_s=60, timeout_ms=4000))
         rec.sample(dict(part="B", inputs=list(inputs), output=output, sizes="symbolic in [1,3]", chi="symbolic in [1,32]"))
     rec.validated += 1
 
